@@ -33,19 +33,26 @@ def _comps(p):
 
 def _history(subject):
     pref = st.lists(st.sampled_from(ALPHABET), min_size=0, max_size=3)
-    attach = st.fixed_dictionaries({'op': st.just('attach'), 'p': pref, 'rep': st.integers(0, 6)})
+    attach = st.fixed_dictionaries({'op': st.just('attach'), 'p': pref, 'rep': st.integers(0, 6),
+                                    'val': st.sampled_from([None, None, 'pass', 'fail'])})
+    attach_dup = st.fixed_dictionaries({'op': st.just('attach'), 'k': st.integers(0, 7), 'rep': st.integers(0, 6),
+                                        'val': st.sampled_from(['pass', 'fail', None])})
     detach = st.fixed_dictionaries({'op': st.just('detach'), 'p': pref, 'rep': st.integers(0, 6)})
     detach_k = st.fixed_dictionaries({'op': st.just('detach'), 'k': st.integers(0, 7), 'rep': st.integers(0, 6)})
     interest = st.fixed_dictionaries({'op': st.just('interest'), 'n': st.lists(st.sampled_from(ALPHABET), min_size=0, max_size=4),
                                       'life': st.sampled_from([None, 0, 1, 5, 50, 4000]), 'mode': st.sampled_from(['await', 'task'])})
-    interest_k = st.fixed_dictionaries({'op': st.just('interest'), 'under': st.integers(0, 7),
+    shutdown = st.just({'op': 'shutdown'})
+    interest_k = st.fixed_dictionaries({'op': st.just('interest'), 'under': st.integers(0, 7), 'params': st.sampled_from([False, False, True]),
                                         'ext': st.lists(st.sampled_from(ALPHABET), max_size=2),
                                         'life': st.sampled_from([None, 0, 1, 5, 50, 4000]), 'mode': st.sampled_from(['await', 'task'])})
     adv = st.fixed_dictionaries({'op': st.just('adv'), 'ms': st.sampled_from([0, 1, 2, 4, 5, 6, 49, 50, 51, 3999, 4000, 4001])})
     reply = st.fixed_dictionaries({'op': st.just('reply'), 'k': st.integers(0, 7)})
-    ops = [attach, attach, detach, detach_k, interest, interest_k, interest_k, adv]
+    ops = [attach, attach, attach_dup, detach, detach_k, interest, interest_k, interest_k, adv]
     if subject == 'v2':
         ops += [reply, reply, adv]
+        tail = st.one_of(st.just([]), st.just([]), st.tuples(shutdown, st.lists(reply, min_size=1, max_size=3)).map(lambda t: [t[0]] + t[1]))
+        return st.tuples(st.lists(attach, min_size=1, max_size=4), st.lists(st.one_of(*ops), min_size=2, max_size=22), tail).map(
+            lambda t: t[0] + t[1] + t[2])
     return st.tuples(st.lists(attach, min_size=1, max_size=4), st.lists(st.one_of(*ops), min_size=2, max_size=22)).map(
         lambda t: t[0] + t[1])
 
@@ -73,6 +80,8 @@ def run_case(case):
 def _run(subj, sim, ops, r):
     disp = Dispatcher() if subj == 'dispatcher' else None
     model = {}         # tuple(comps) -> handler id
+    validators = {}    # tuple(comps) -> None | 'pass' | 'fail'   (v2: validator attached with the handler)
+    down = False
     calls = []         # (hid, name, reply, arrival_ms, lifetime)
     gen = [0]
     trace = []
@@ -89,12 +98,17 @@ def _run(subj, sim, ops, r):
                 calls.append({'hid': hid, 'name': [bytes(c) for c in name], 't': sim.vl.now_ms() if sim else 0})
         return h
 
-    def do_attach(key, rep):
+    def do_attach(key, rep, val=None):
         arg = P.name_in_rep([[T.read_num(c, 0, len(c))[0], bytes(c[T.read_tlv(c, 0, len(c))[2]:]).hex()] for c in key], rep)
         gen[0] += 1
         h = make_handler(gen[0])
         if subj == 'v2':
-            sim.vl.call(sim.app.attach_handler, arg, h)
+            from ndn.types import ValidResult
+            validator = None
+            if val is not None:
+                async def validator(_n, _s, _c, val=val):
+                    return ValidResult.PASS if val == 'pass' else ValidResult.FAIL
+            sim.vl.call(sim.app.attach_handler, arg, h, validator)
         elif subj == 'legacy':
             sim.vl.call(sim.app.set_interest_filter, arg, h)
         else:
@@ -119,9 +133,14 @@ def _run(subj, sim, ops, r):
     for op in ops:
         k = op['op']
         if k == 'attach':
-            key = tuple(_comps(op['p']))
+            if 'k' in op:
+                if not attached_order:
+                    continue
+                key = attached_order[op['k'] % len(attached_order)]
+            else:
+                key = tuple(_comps(op['p']))
             try:
-                hid = do_attach(list(key), op['rep'])
+                hid = do_attach(list(key), op['rep'], op.get('val'))
                 raised = None
             except ValueError as e:
                 raised = e
@@ -139,6 +158,7 @@ def _run(subj, sim, ops, r):
                     r.bad(f'C04/{subj}/attach-refused', f'{raised!r} prefix {op["p"]} rep={op["rep"]}')
                     return
                 model[key] = hid
+                validators[key] = op.get('val')
                 attached_order.append(key)
         elif k == 'detach':
             if 'k' in op:
@@ -162,6 +182,7 @@ def _run(subj, sim, ops, r):
                     r.bad(f'C04/{subj}/detach-attached-raised', f'{raised!r}')
                     return
                 del model[key]
+                validators.pop(key, None)
             else:
                 trace.append('x')
         elif k == 'interest':
@@ -185,7 +206,15 @@ def _run(subj, sim, ops, r):
                 if bool(ret) != (want is not None):
                     r.bad(f'C04/{subj}/dispatch-return', f'returned {ret} but handler expected={want}')
             else:
-                wire = net.interest_wire(name, lifetime=op['life'], nonce=7)
+                params = bool(op.get('params')) and subj == 'v2'
+                wire = net.interest_wire(name, lifetime=op['life'], nonce=7, app_param=b'p' if params else None)
+                if params and want is not None:
+                    name = name + [T.enc_tlv(2, P.strict_interest(wire)['digest_comp'])]
+                    if validators.get(tuple(name[:depth])) != 'pass':
+                        want = None       # no validator / rejecting validator: dropped
+                        flags.add('validator-drop')
+                if down:
+                    continue
                 sim.deliver(wire, op['mode'])
                 sim.vl.advance(0)
                 if sim.receive_errors:
@@ -206,9 +235,33 @@ def _run(subj, sim, ops, r):
             elif new[0]['name'] != name:
                 r.bad(f'C04/{subj}/handler-got-wrong-name', f'{new[0]["name"]} != {name}')
         elif k == 'adv':
-            if sim is not None:
+            if sim is not None and not down:
                 sim.vl.advance(op['ms'] / 1000)
                 trace.append('a')
+        elif k == 'shutdown':
+            if sim is not None and not down:
+                sim.shutdown()
+                down = True
+                trace.append('S')
+        elif k == 'reply' and down:
+            held = [c for c in calls if 'reply' in c]
+            if not held:
+                continue
+            c = held[op['k'] % len(held)]
+            before = len(sim.face.sent)
+            flags.add('reply-after-face-down')
+            try:
+                ret = sim.vl.call(c['reply'], net.data_wire(c['name'], content=b'late'))
+            except Exception as e:
+                ret = None
+                if type(e).__name__ != 'NetworkError':
+                    r.bad(f'C04/v2/reply-after-face-down/raised/{type(e).__name__}', repr(e))
+                    return
+            if len(sim.face.sent) != before:
+                r.bad('C04/v2/reply-after-face-down/sent', '')
+            elif ret:
+                r.bad('C04/v2/reply-return-untruthful/face-down', f'returned {ret!r} although the face is down and nothing was sent')
+            trace.append('r')
         elif k == 'reply':
             held = [c for c in calls if 'reply' in c]
             if not held:
